@@ -2680,11 +2680,10 @@ fn eval_built_in_call(
                 arg_values,
             )?;
 
-            let mut saved_values = vec![];
+            let mut saved_values = vec![receiver_value.clone()];
             for value in arg_values.iter().rev() {
                 saved_values.push(value.clone());
             }
-            saved_values.push(receiver_value.clone());
 
             let s = check_string(&arg_values[0], &arg_positions[0], saved_values, env)?;
             match &session.stdout_stderr_mode {
@@ -2729,11 +2728,10 @@ fn eval_built_in_call(
                 arg_values,
             )?;
 
-            let mut saved_values = vec![];
+            let mut saved_values = vec![receiver_value.clone()];
             for value in arg_values.iter().rev() {
                 saved_values.push(value.clone());
             }
-            saved_values.push(receiver_value.clone());
 
             let s = check_string(&arg_values[0], &arg_positions[0], saved_values, env)?;
             match &session.stdout_stderr_mode {
@@ -2780,11 +2778,10 @@ fn eval_built_in_call(
                 arg_values,
             )?;
 
-            let mut saved_values = vec![];
+            let mut saved_values = vec![receiver_value.clone()];
             for value in arg_values.iter().rev() {
                 saved_values.push(value.clone());
             }
-            saved_values.push(receiver_value.clone());
 
             let s = check_string(&arg_values[0], &arg_positions[0], saved_values, env)?;
             match &session.stdout_stderr_mode {
@@ -2828,11 +2825,10 @@ fn eval_built_in_call(
                 arg_values,
             )?;
 
-            let mut saved_values = vec![];
+            let mut saved_values = vec![receiver_value.clone()];
             for value in arg_values.iter().rev() {
                 saved_values.push(value.clone());
             }
-            saved_values.push(receiver_value.clone());
 
             let s = check_string(&arg_values[0], &arg_positions[0], saved_values, env)?;
             match &session.stdout_stderr_mode {
@@ -2903,11 +2899,10 @@ fn eval_built_in_call(
         }
         BuiltInFunctionKind::ShellRun => {
             if env.enforce_sandbox {
-                let mut saved_values = vec![];
+                let mut saved_values = vec![receiver_value.clone()];
                 for value in arg_values.iter().rev() {
                     saved_values.push(value.clone());
                 }
-                saved_values.push(receiver_value.clone());
 
                 return Err((
                     RestoreValues(saved_values),
@@ -2926,11 +2921,10 @@ fn eval_built_in_call(
                 arg_values,
             )?;
 
-            let mut saved_values = vec![];
+            let mut saved_values = vec![receiver_value.clone()];
             for value in arg_values.iter().rev() {
                 saved_values.push(value.clone());
             }
-            saved_values.push(receiver_value.clone());
 
             let s = check_string(&arg_values[0], &arg_positions[0], saved_values, env)?;
             match as_string_list(&arg_values[1]) {
@@ -2971,11 +2965,10 @@ fn eval_built_in_call(
                     }
                 }
                 Err(v) => {
-                    let mut saved_values = vec![];
+                    let mut saved_values = vec![receiver_value.clone()];
                     for value in arg_values.iter().rev() {
                         saved_values.push(value.clone());
                     }
-                    saved_values.push(receiver_value.clone());
 
                     let message = format_type_error(
                         &TypeName {
@@ -3083,11 +3076,10 @@ fn eval_built_in_call(
                 ..
             } = arg_values[0].as_ref()
             else {
-                let mut saved_values = vec![];
+                let mut saved_values = vec![receiver_value.clone()];
                 for value in arg_values.iter().rev() {
                     saved_values.push(value.clone());
                 }
-                saved_values.push(receiver_value.clone());
 
                 let message = format_type_error(
                     &TypeName {
@@ -3139,11 +3131,10 @@ fn eval_built_in_call(
                 arg_values,
             )?;
 
-            let mut saved_values = vec![];
+            let mut saved_values = vec![receiver_value.clone()];
             for value in arg_values.iter().rev() {
                 saved_values.push(value.clone());
             }
-            saved_values.push(receiver_value.clone());
 
             let type_name = check_string(&arg_values[0], &arg_positions[0], saved_values, env)?;
 
@@ -3170,11 +3161,10 @@ fn eval_built_in_call(
         }
         BuiltInFunctionKind::FsListDirectory => {
             if env.enforce_sandbox {
-                let mut saved_values = vec![];
+                let mut saved_values = vec![receiver_value.clone()];
                 for value in arg_values.iter().rev() {
                     saved_values.push(value.clone());
                 }
-                saved_values.push(receiver_value.clone());
 
                 return Err((
                     RestoreValues(saved_values),
@@ -3303,11 +3293,10 @@ fn eval_built_in_call(
                 arg_values,
             )?;
 
-            let mut saved_values = vec![];
+            let mut saved_values = vec![receiver_value.clone()];
             for value in arg_values.iter().rev() {
                 saved_values.push(value.clone());
             }
-            saved_values.push(receiver_value.clone());
 
             let env_var_name = check_string(&arg_values[0], &arg_positions[0], saved_values, env)?;
 
@@ -3423,11 +3412,10 @@ fn eval_built_in_call(
         }
         BuiltInFunctionKind::FsWriteFile => {
             if env.enforce_sandbox {
-                let mut saved_values = vec![];
+                let mut saved_values = vec![receiver_value.clone()];
                 for value in arg_values.iter().rev() {
                     saved_values.push(value.clone());
                 }
-                saved_values.push(receiver_value.clone());
 
                 return Err((
                     RestoreValues(saved_values),
@@ -3446,11 +3434,10 @@ fn eval_built_in_call(
                 arg_values,
             )?;
 
-            let mut saved_values = vec![];
+            let mut saved_values = vec![receiver_value.clone()];
             for value in arg_values.iter().rev() {
                 saved_values.push(value.clone());
             }
-            saved_values.push(receiver_value.clone());
 
             let content_s = check_string(&arg_values[0], &arg_positions[0], saved_values, env)?;
 
@@ -3493,11 +3480,10 @@ fn eval_built_in_call(
         }
         BuiltInFunctionKind::FsWriteBytes => {
             if env.enforce_sandbox {
-                let mut saved_values = vec![];
+                let mut saved_values = vec![receiver_value.clone()];
                 for value in arg_values.iter().rev() {
                     saved_values.push(value.clone());
                 }
-                saved_values.push(receiver_value.clone());
 
                 return Err((
                     RestoreValues(saved_values),
@@ -3519,11 +3505,10 @@ fn eval_built_in_call(
             let items = match arg_values[0].as_ref() {
                 Value_::List { items, .. } => items.clone(),
                 _ => {
-                    let mut saved_values = vec![];
+                    let mut saved_values = vec![receiver_value.clone()];
                     for value in arg_values.iter().rev() {
                         saved_values.push(value.clone());
                     }
-                    saved_values.push(receiver_value.clone());
 
                     return Err((
                         RestoreValues(saved_values),
@@ -3546,11 +3531,10 @@ fn eval_built_in_call(
                 let i = match item.as_ref() {
                     Value_::Int(i) => *i,
                     _ => {
-                        let mut saved_values = vec![];
+                        let mut saved_values = vec![receiver_value.clone()];
                         for value in arg_values.iter().rev() {
                             saved_values.push(value.clone());
                         }
-                        saved_values.push(receiver_value.clone());
 
                         return Err((
                             RestoreValues(saved_values),
@@ -3567,11 +3551,10 @@ fn eval_built_in_call(
                 };
 
                 if !(0..=255).contains(&i) {
-                    let mut saved_values = vec![];
+                    let mut saved_values = vec![receiver_value.clone()];
                     for value in arg_values.iter().rev() {
                         saved_values.push(value.clone());
                     }
-                    saved_values.push(receiver_value.clone());
 
                     return Err((
                         RestoreValues(saved_values),
@@ -3589,11 +3572,10 @@ fn eval_built_in_call(
                 bytes.push(i as u8);
             }
 
-            let mut saved_values = vec![];
+            let mut saved_values = vec![receiver_value.clone()];
             for value in arg_values.iter().rev() {
                 saved_values.push(value.clone());
             }
-            saved_values.push(receiver_value.clone());
 
             let path_s = match unwrap_path(&arg_values[1], env) {
                 Ok(s) => s,
@@ -3634,11 +3616,10 @@ fn eval_built_in_call(
         }
         BuiltInFunctionKind::FsCreateDir => {
             if env.enforce_sandbox {
-                let mut saved_values = vec![];
+                let mut saved_values = vec![receiver_value.clone()];
                 for value in arg_values.iter().rev() {
                     saved_values.push(value.clone());
                 }
-                saved_values.push(receiver_value.clone());
 
                 return Err((
                     RestoreValues(saved_values),
@@ -3695,11 +3676,10 @@ fn eval_built_in_call(
         }
         BuiltInFunctionKind::FsRemoveDir => {
             if env.enforce_sandbox {
-                let mut saved_values = vec![];
+                let mut saved_values = vec![receiver_value.clone()];
                 for value in arg_values.iter().rev() {
                     saved_values.push(value.clone());
                 }
-                saved_values.push(receiver_value.clone());
 
                 return Err((
                     RestoreValues(saved_values),
@@ -3756,11 +3736,10 @@ fn eval_built_in_call(
         }
         BuiltInFunctionKind::FsCopyFile => {
             if env.enforce_sandbox {
-                let mut saved_values = vec![];
+                let mut saved_values = vec![receiver_value.clone()];
                 for value in arg_values.iter().rev() {
                     saved_values.push(value.clone());
                 }
-                saved_values.push(receiver_value.clone());
 
                 return Err((
                     RestoreValues(saved_values),
@@ -3841,11 +3820,10 @@ fn eval_built_in_call(
         }
         BuiltInFunctionKind::FsReadFile => {
             if env.enforce_sandbox {
-                let mut saved_values = vec![];
+                let mut saved_values = vec![receiver_value.clone()];
                 for value in arg_values.iter().rev() {
                     saved_values.push(value.clone());
                 }
-                saved_values.push(receiver_value.clone());
 
                 return Err((
                     RestoreValues(saved_values),
@@ -3916,11 +3894,10 @@ fn eval_built_in_call(
         }
         BuiltInFunctionKind::FsReadFileBytes => {
             if env.enforce_sandbox {
-                let mut saved_values = vec![];
+                let mut saved_values = vec![receiver_value.clone()];
                 for value in arg_values.iter().rev() {
                     saved_values.push(value.clone());
                 }
-                saved_values.push(receiver_value.clone());
 
                 return Err((
                     RestoreValues(saved_values),
@@ -4000,11 +3977,10 @@ fn eval_built_in_call(
         }
         BuiltInFunctionKind::FsRemoveFile => {
             if env.enforce_sandbox {
-                let mut saved_values = vec![];
+                let mut saved_values = vec![receiver_value.clone()];
                 for value in arg_values.iter().rev() {
                     saved_values.push(value.clone());
                 }
-                saved_values.push(receiver_value.clone());
 
                 return Err((
                     RestoreValues(saved_values),
@@ -4298,11 +4274,10 @@ fn eval_built_in_call(
             )?;
 
             let Value_::Namespace { ns_info, .. } = arg_values[0].as_ref() else {
-                let mut saved_values = vec![];
+                let mut saved_values = vec![receiver_value.clone()];
                 for value in arg_values.iter().rev() {
                     saved_values.push(value.clone());
                 }
-                saved_values.push(receiver_value.clone());
 
                 let message = format_type_error(
                     &TypeName {
@@ -4802,11 +4777,10 @@ fn eval_call(
             }
         }
         _ => {
-            let mut saved_values = vec![];
+            let mut saved_values = vec![receiver_value.clone()];
             for value in arg_values.iter().rev() {
                 saved_values.push(value.clone());
             }
-            saved_values.push(receiver_value.clone());
 
             let message = format_type_error(
                 &TypeName {
@@ -5257,11 +5231,10 @@ fn eval_built_in_method_call(
                 arg_values,
             )?;
 
-            let mut saved_values = vec![];
+            let mut saved_values = vec![receiver_value.clone()];
             for value in arg_values.iter().rev() {
                 saved_values.push(value.clone());
             }
-            saved_values.push(receiver_value.clone());
 
             let expected_key =
                 check_string(&arg_values[0], &arg_positions[0], saved_values.clone(), env)?;
@@ -5335,11 +5308,10 @@ fn eval_built_in_method_call(
                     }
                 }
                 _ => {
-                    let mut saved_values = vec![];
+                    let mut saved_values = vec![receiver_value.clone()];
                     for value in arg_values.iter().rev() {
                         saved_values.push(value.clone());
                     }
-                    saved_values.push(receiver_value.clone());
 
                     return Err((
                         RestoreValues(saved_values),
@@ -5369,11 +5341,10 @@ fn eval_built_in_method_call(
                 arg_values,
             )?;
 
-            let mut saved_values = vec![];
+            let mut saved_values = vec![receiver_value.clone()];
             for value in arg_values.iter().rev() {
                 saved_values.push(value.clone());
             }
-            saved_values.push(receiver_value.clone());
 
             let key_to_remove =
                 check_string(&arg_values[0], &arg_positions[0], saved_values.clone(), env)?;
@@ -5418,11 +5389,10 @@ fn eval_built_in_method_call(
                 arg_values,
             )?;
 
-            let mut saved_values = vec![];
+            let mut saved_values = vec![receiver_value.clone()];
             for value in arg_values.iter().rev() {
                 saved_values.push(value.clone());
             }
-            saved_values.push(receiver_value.clone());
 
             let key_to_insert =
                 check_string(&arg_values[0], &arg_positions[0], saved_values.clone(), env)?;
@@ -5476,11 +5446,10 @@ fn eval_built_in_method_call(
                     }
                 }
                 _ => {
-                    let mut saved_values = vec![];
+                    let mut saved_values = vec![receiver_value.clone()];
                     for value in arg_values.iter().rev() {
                         saved_values.push(value.clone());
                     }
-                    saved_values.push(receiver_value.clone());
 
                     return Err((
                         RestoreValues(saved_values),
@@ -5517,11 +5486,10 @@ fn eval_built_in_method_call(
                     }
                 }
                 _ => {
-                    let mut saved_values = vec![];
+                    let mut saved_values = vec![receiver_value.clone()];
                     for value in arg_values.iter().rev() {
                         saved_values.push(value.clone());
                     }
-                    saved_values.push(receiver_value.clone());
 
                     return Err((
                         RestoreValues(saved_values),
@@ -5558,11 +5526,10 @@ fn eval_built_in_method_call(
                     }
                 }
                 _ => {
-                    let mut saved_values = vec![];
+                    let mut saved_values = vec![receiver_value.clone()];
                     for value in arg_values.iter().rev() {
                         saved_values.push(value.clone());
                     }
-                    saved_values.push(receiver_value.clone());
 
                     return Err((
                         RestoreValues(saved_values),
@@ -5606,11 +5573,10 @@ fn eval_built_in_method_call(
                     }
                 }
                 _ => {
-                    let mut saved_values = vec![];
+                    let mut saved_values = vec![receiver_value.clone()];
                     for value in arg_values.iter().rev() {
                         saved_values.push(value.clone());
                     }
-                    saved_values.push(receiver_value.clone());
 
                     return Err((
                         RestoreValues(saved_values),
@@ -5656,11 +5622,10 @@ fn eval_built_in_method_call(
                     }
                 }
                 _ => {
-                    let mut saved_values = vec![];
+                    let mut saved_values = vec![receiver_value.clone()];
                     for value in arg_values.iter().rev() {
                         saved_values.push(value.clone());
                     }
-                    saved_values.push(receiver_value.clone());
 
                     return Err((
                         RestoreValues(saved_values),
@@ -5703,11 +5668,10 @@ fn eval_built_in_method_call(
                     }
                 }
                 (_, Value_::Int(_)) => {
-                    let mut saved_values = vec![];
+                    let mut saved_values = vec![receiver_value.clone()];
                     for value in arg_values.iter().rev() {
                         saved_values.push(value.clone());
                     }
-                    saved_values.push(receiver_value.clone());
 
                     return Err((
                         RestoreValues(saved_values),
@@ -5724,11 +5688,10 @@ fn eval_built_in_method_call(
                     ));
                 }
                 (_, _) => {
-                    let mut saved_values = vec![];
+                    let mut saved_values = vec![receiver_value.clone()];
                     for value in arg_values.iter().rev() {
                         saved_values.push(value.clone());
                     }
-                    saved_values.push(receiver_value.clone());
 
                     return Err((
                         RestoreValues(saved_values),
@@ -5763,11 +5726,10 @@ fn eval_built_in_method_call(
                     }
                 }
                 _ => {
-                    let mut saved_values = vec![];
+                    let mut saved_values = vec![receiver_value.clone()];
                     for value in arg_values.iter().rev() {
                         saved_values.push(value.clone());
                     }
-                    saved_values.push(receiver_value.clone());
 
                     return Err((
                         RestoreValues(saved_values),
@@ -5800,11 +5762,10 @@ fn eval_built_in_method_call(
             let (items, elem_type) = match receiver_value.as_ref() {
                 Value_::List { items, elem_type } => (items, elem_type),
                 _ => {
-                    let mut saved_values = vec![];
+                    let mut saved_values = vec![receiver_value.clone()];
                     for value in arg_values.iter().rev() {
                         saved_values.push(value.clone());
                     }
-                    saved_values.push(receiver_value.clone());
 
                     return Err((
                         RestoreValues(saved_values),
@@ -5825,11 +5786,10 @@ fn eval_built_in_method_call(
             let i_arg = match arg_values[0].as_ref() {
                 Value_::Int(i) => *i,
                 _ => {
-                    let mut saved_values = vec![];
+                    let mut saved_values = vec![receiver_value.clone()];
                     for value in arg_values.iter().rev() {
                         saved_values.push(value.clone());
                     }
-                    saved_values.push(receiver_value.clone());
 
                     return Err((
                         RestoreValues(saved_values),
@@ -5847,11 +5807,10 @@ fn eval_built_in_method_call(
             let j_arg = match arg_values[1].as_ref() {
                 Value_::Int(j) => *j,
                 _ => {
-                    let mut saved_values = vec![];
+                    let mut saved_values = vec![receiver_value.clone()];
                     for value in arg_values.iter().rev() {
                         saved_values.push(value.clone());
                     }
-                    saved_values.push(receiver_value.clone());
 
                     return Err((
                         RestoreValues(saved_values),
@@ -5889,11 +5848,10 @@ fn eval_built_in_method_call(
         }
         BuiltInMethodKind::PathExists => {
             if env.enforce_sandbox {
-                let mut saved_values = vec![];
+                let mut saved_values = vec![receiver_value.clone()];
                 for value in arg_values.iter().rev() {
                     saved_values.push(value.clone());
                 }
-                saved_values.push(receiver_value.clone());
 
                 return Err((
                     RestoreValues(saved_values),
@@ -5942,11 +5900,10 @@ fn eval_built_in_method_call(
         }
         BuiltInMethodKind::PathInfo => {
             if env.enforce_sandbox {
-                let mut saved_values = vec![];
+                let mut saved_values = vec![receiver_value.clone()];
                 for value in arg_values.iter().rev() {
                     saved_values.push(value.clone());
                 }
-                saved_values.push(receiver_value.clone());
 
                 return Err((
                     RestoreValues(saved_values),
@@ -6060,11 +6017,10 @@ fn eval_built_in_method_call(
                 arg_values,
             )?;
 
-            let mut saved_values = vec![];
+            let mut saved_values = vec![receiver_value.clone()];
             for value in arg_values.iter().rev() {
                 saved_values.push(value.clone());
             }
-            saved_values.push(receiver_value.clone());
 
             let s = check_string(receiver_value, receiver_pos, saved_values, env)?;
             let value = match s.parse::<i64>() {
@@ -6088,11 +6044,10 @@ fn eval_built_in_method_call(
                 arg_values,
             )?;
 
-            let mut saved_values = vec![];
+            let mut saved_values = vec![receiver_value.clone()];
             for value in arg_values.iter().rev() {
                 saved_values.push(value.clone());
             }
-            saved_values.push(receiver_value.clone());
 
             let s = check_string(receiver_value, receiver_pos, saved_values, env)?;
             let mut items = rpds::Vector::new();
@@ -6120,11 +6075,10 @@ fn eval_built_in_method_call(
                 arg_values,
             )?;
 
-            let mut saved_values = vec![];
+            let mut saved_values = vec![receiver_value.clone()];
             for value in arg_values.iter().rev() {
                 saved_values.push(value.clone());
             }
-            saved_values.push(receiver_value.clone());
 
             let receiver_s = check_string(receiver_value, receiver_pos, saved_values.clone(), env)?;
             let arg_s = check_string(&arg_values[0], &arg_positions[0], saved_values, env)?;
@@ -6155,11 +6109,10 @@ fn eval_built_in_method_call(
                 arg_values,
             )?;
 
-            let mut saved_values = vec![];
+            let mut saved_values = vec![receiver_value.clone()];
             for value in arg_values.iter().rev() {
                 saved_values.push(value.clone());
             }
-            saved_values.push(receiver_value.clone());
 
             let receiver_s = check_string(receiver_value, receiver_pos, saved_values.clone(), env)?;
             let arg_s = check_string(&arg_values[0], &arg_positions[0], saved_values, env)?;
@@ -6181,11 +6134,10 @@ fn eval_built_in_method_call(
                 arg_values,
             )?;
 
-            let mut saved_values = vec![];
+            let mut saved_values = vec![receiver_value.clone()];
             for value in arg_values.iter().rev() {
                 saved_values.push(value.clone());
             }
-            saved_values.push(receiver_value.clone());
 
             let receiver_s = check_string(receiver_value, receiver_pos, saved_values.clone(), env)?;
             let arg_s = check_string(&arg_values[0], &arg_positions[0], saved_values, env)?;
@@ -6207,11 +6159,10 @@ fn eval_built_in_method_call(
                 arg_values,
             )?;
 
-            let mut saved_values = vec![];
+            let mut saved_values = vec![receiver_value.clone()];
             for value in arg_values.iter().rev() {
                 saved_values.push(value.clone());
             }
-            saved_values.push(receiver_value.clone());
 
             let receiver_s = check_string(receiver_value, receiver_pos, saved_values.clone(), env)?;
 
@@ -6268,11 +6219,10 @@ fn eval_built_in_method_call(
                 arg_values,
             )?;
 
-            let mut saved_values = vec![];
+            let mut saved_values = vec![receiver_value.clone()];
             for value in arg_values.iter().rev() {
                 saved_values.push(value.clone());
             }
-            saved_values.push(receiver_value.clone());
 
             let s = check_string(receiver_value, receiver_pos, saved_values, env)?;
             if expr_value_is_used {
@@ -6291,11 +6241,10 @@ fn eval_built_in_method_call(
                 arg_values,
             )?;
 
-            let mut saved_values = vec![];
+            let mut saved_values = vec![receiver_value.clone()];
             for value in arg_values.iter().rev() {
                 saved_values.push(value.clone());
             }
-            saved_values.push(receiver_value.clone());
 
             let s = check_string(receiver_value, receiver_pos, saved_values, env)?;
             let lines = s
@@ -6329,21 +6278,19 @@ fn eval_built_in_method_call(
                 arg_values,
             )?;
 
-            let mut saved_values = vec![];
+            let mut saved_values = vec![receiver_value.clone()];
             for value in arg_values.iter().rev() {
                 saved_values.push(value.clone());
             }
-            saved_values.push(receiver_value.clone());
 
             let s_arg = check_string(receiver_value, receiver_pos, saved_values.clone(), env)?;
             let from_arg = match arg_values[0].as_ref() {
                 Value_::Int(i) => i,
                 _ => {
-                    let mut saved_values = vec![];
+                    let mut saved_values = vec![receiver_value.clone()];
                     for value in arg_values.iter().rev() {
                         saved_values.push(value.clone());
                     }
-                    saved_values.push(receiver_value.clone());
 
                     return Err((
                         RestoreValues(saved_values),
@@ -6361,11 +6308,10 @@ fn eval_built_in_method_call(
             let to_arg = match arg_values[1].as_ref() {
                 Value_::Int(i) => i,
                 _ => {
-                    let mut saved_values = vec![];
+                    let mut saved_values = vec![receiver_value.clone()];
                     for value in arg_values.iter().rev() {
                         saved_values.push(value.clone());
                     }
-                    saved_values.push(receiver_value.clone());
 
                     return Err((
                         RestoreValues(saved_values),
@@ -6382,11 +6328,10 @@ fn eval_built_in_method_call(
             };
 
             if *from_arg < 0 {
-                let mut saved_values = vec![];
+                let mut saved_values = vec![receiver_value.clone()];
                 for value in arg_values.iter().rev() {
                     saved_values.push(value.clone());
                 }
-                saved_values.push(receiver_value.clone());
 
                 return Err((
                     RestoreValues(saved_values),
@@ -6402,11 +6347,10 @@ fn eval_built_in_method_call(
             }
 
             if from_arg > to_arg {
-                let mut saved_values = vec![];
+                let mut saved_values = vec![receiver_value.clone()];
                 for value in arg_values.iter().rev() {
                     saved_values.push(value.clone());
                 }
-                saved_values.push(receiver_value.clone());
 
                 let s_len = s_arg.chars().count();
                 return Err((
